@@ -1460,6 +1460,11 @@ impl Connection {
     /// configuration in the [`TransportConfig`].
     pub fn path_changed(&mut self, now: Instant) {
         self.path.reset(now, &self.config);
+        // The peer's limit still applies to the restarted MTU estimate, also when MTU discovery is
+        // disabled and the limit is remembered nowhere else
+        self.path.mtud.on_peer_max_udp_payload_size_received(
+            u16::try_from(self.peer_params.max_udp_payload_size.into_inner()).unwrap_or(u16::MAX),
+        );
     }
 
     /// Modify the number of remotely initiated streams that may be concurrently open
